@@ -35,4 +35,17 @@ def exportI64 (w : Nat) (bits : Nat → Bool) : Int :=
 def specSigned (w : Nat) (bits : Nat → Bool) : Int :=
   if w = 0 then 0 else if bits (w - 1) then (toNat w bits : Int) - (2:Int)^w else toNat w bits
 
+/-! ## byte arrays (`BitVectorState.cpp`: `createDefaultBitVectorState(span)`, `operator==(state, span)`) — specification -/
+
+/-- bit `i` of a byte array read as a little-endian bit string -/
+def bytesBit (bytes : List Nat) (i : Nat) : Bool := (bytes.getD (i / 8) 0).testBit (i % 8)
+
+/-- a state given by its characters (LSB first, `0`/`1`/`x`) is the import of the byte array: `8·n` bits, all defined, bit for bit -/
+def isImportOf (chars : List Char) (bytes : List Nat) : Bool :=
+  chars.length == 8 * bytes.length && (List.range chars.length).all fun i => chars.getD i 'x' == (if bytesBit bytes i then '1' else '0')
+
+/-- `state == bytes`: every bit of the state is defined and equals the corresponding bit of the array (an undefined bit anywhere makes
+    the comparison false) — which is the same predicate -/
+def eqBytesSpec (chars : List Char) (bytes : List Nat) : Bool := isImportOf chars bytes
+
 end Gatery.C18.Sig
